@@ -34,6 +34,10 @@ def plan_items(tier: str, seed: int, *, n_gen_quick: int, n_gen_thorough: int, n
         else:
             shards.append({"item": it, "seed": seed * 7919 + i, "n": max(20, n // 4), "matrix": "sample",
                            "time_cap": 40 if tier == "quick" else 100})
+    # order: the same kind of cases, but in a process that has first seen several hundred decodes FAIL inside nested
+    # messages (and one absurdly deep message): whatever a failed decode leaves behind must not reach a later one
+    shards.append({"item": {"kind": "matrix"}, "seed": seed * 7919 + 4000, "n": n, "matrix": "sample", "after_failures": 330,
+                   "time_cap": 40 if tier == "quick" else 100})
     # quantity and size: the matrix schema with ONE field per case far beyond the sizes of the other shapes
     for r in range(2 if tier == "quick" else 8):
         shards.append({"item": {"kind": "matrix"}, "seed": seed * 7919 + 5000 + r, "n": 0, "matrix": "none", "large": True,
@@ -105,6 +109,9 @@ def run_value_shard(shard: dict, prop: str, check_case: Callable, contracts: Lis
         name = corpus.item_name(shard["item"])
         import time as _time
 
+        if shard.get("after_failures"):
+            _failing_decodes(b, ref, rng, shard["after_failures"], res)
+
         t_end = _time.time() + shard.get("time_cap", 40)
         for mi, tree, tag in iter_cases(b, shard, rng):
             if _time.time() > t_end:
@@ -126,6 +133,68 @@ def run_value_shard(shard: dict, prop: str, check_case: Callable, contracts: Lis
     finally:
         b.cleanup()
     return res
+
+
+def _poison(b: Build, mi: MsgInfo, data: bytes, rng, depth: int = 0):
+    """a copy of the valid encoding `data` whose outer framing is intact but which ends, up to three levels down inside a
+    nested message, in a tag without a value; None if the message has no nested message on the wire"""
+    from . import spec
+
+    try:
+        recs = spec.read_records(data)
+    except Exception:
+        return None
+    fields = {f.number: f for f in mi.fields}
+    nested = [i for i, r in enumerate(recs) if r.wt == spec.WT_LEN and r.number in fields and fields[r.number].kind == "message"
+              and fields[r.number].wkt is None and fields[r.number].label in ("singular", "optional", "oneof", "repeated")]
+    if not nested:
+        return data + b"\x08" if depth else None
+    i = rng.choice(nested)
+    r = recs[i]
+    sub = b.msgs[fields[r.number].type_name]
+    inner = _poison(b, sub, r.value, rng, depth + 1) if depth < 2 else None
+    if inner is None:
+        inner = r.value + b"\x08"
+    raws = [x.raw for x in recs]
+    raws[i] = spec.enc_record(r.number, spec.WT_LEN, inner)
+    return b"".join(raws)
+
+
+def _failing_decodes(b: Build, ref, rng, n: int, res: Result) -> None:
+    g = Gen(b, rng, max_depth=3)
+    msgs = [mi for mi in b.user_messages() if any(f.kind == "message" and f.wkt is None for f in mi.fields)]
+    done = raised = 0
+    for k in range(n * 3):
+        if done >= n or not msgs:
+            break
+        mi = msgs[k % len(msgs)]
+        try:
+            data = ref.make(mi, g.tree(mi, 0, "maximal" if k % 2 else "random")).SerializeToString()
+        except Exception:
+            continue
+        bad = _poison(b, mi, data, rng)
+        if bad is None:
+            continue
+        done += 1
+        try:
+            b.bp_class(mi.full_name)().parse(bad)
+        except Exception:
+            raised += 1
+    # one message nested far deeper than any real one (accepted or rejected, either is fine here)
+    rec = next((mi for mi in b.user_messages() for f in mi.fields if f.kind == "message" and f.type_name == mi.full_name and f.label == "singular"), None)
+    if rec is not None:
+        from . import spec
+
+        f = next(f for f in rec.fields if f.kind == "message" and f.type_name == rec.full_name and f.label == "singular")
+        data = b""
+        for _ in range(400):
+            data = spec.enc_record(f.number, spec.WT_LEN, data)
+        try:
+            b.bp_class(rec.full_name)().parse(data)
+        except BaseException:
+            raised += 1
+    res.counters["failed_decodes_first"] += done
+    res.counters["failed_decodes_first_raised"] += raised
 
 
 def replay_value(w: dict, check_case: Callable, prop: str, contracts: List[str]) -> List[dict]:
